@@ -83,9 +83,10 @@ def xhist (leaves : List (Exact Rat)) (ops : List Val) : Option (List Val) := do
   let mut regs := leaves.toArray
   let mut out : Array Val := #[]
   for op in ops do
-    match ← xstep regs op with
-    | .ok r => regs := regs.push r; out := out.push (ofExact r)
-    | .error e => out := out.push (errVal e)
+    match xstep regs op with
+    | some (.ok r) => regs := regs.push r; out := out.push (ofExact r)
+    | some (.error e) => out := out.push (errVal e)
+    | none => out := out.push (err "Model:no_such_register_or_op")   -- code and model diverged earlier
   pure out.toList
 
 inductive GRes where
@@ -117,10 +118,11 @@ def ghist (leaves : List (Grid Rat)) (ops : List Val) : Option (List Val) := do
   let mut regs := leaves.toArray
   let mut out : Array Val := #[]
   for op in ops do
-    match ← gstep regs op with
-    | .ok (.one g) => regs := regs.push g; out := out.push (.list [.str "one", ofGrid g])
-    | .ok (.many gs) => regs := regs ++ gs.toArray; out := out.push (.list [.str "many", .list (gs.map ofGrid)])
-    | .error e => out := out.push (errVal e)
+    match gstep regs op with
+    | some (.ok (.one g)) => regs := regs.push g; out := out.push (.list [.str "one", ofGrid g])
+    | some (.ok (.many gs)) => regs := regs ++ gs.toArray; out := out.push (.list [.str "many", .list (gs.map ofGrid)])
+    | some (.error e) => out := out.push (errVal e)
+    | none => out := out.push (err "Model:no_such_register_or_op")
   pure out.toList
 
 def handle : Handler
